@@ -30,9 +30,10 @@ func Register() {
 // limiter reports at most 3 violations per key (with full witness) and counts the rest, so that one defect hit by many
 // generated cases does not flood the event log (the rig suppresses witnesses after 200 violations).
 type limiter struct {
-	c    *rig.Ctx
-	seen map[string]int
-	name string
+	c     *rig.Ctx
+	seen  map[string]int
+	name  string
+	total int
 }
 
 func newLimiter(c *rig.Ctx, counter string) *limiter {
@@ -41,6 +42,7 @@ func newLimiter(c *rig.Ctx, counter string) *limiter {
 
 func (l *limiter) Violation(key, what string, witness any) {
 	l.seen[key]++
+	l.total++
 	if l.seen[key] <= 3 {
 		l.c.Violation(key, what, witness)
 		return
